@@ -52,7 +52,7 @@ CHECKS = {
     "C11": (
         True,
         "Lean 4 proof that a delimited read is a function of its own line (no carry-over, one value per field, absent tokens None, surplus ignored) + differential correspondence on write/read/padded-read and on read sequences through one Line and through RegisterFile.read",
-        "Theorems Props.C11.split_join (split after join is the identity on delimiter-free tokens, any multi-character delimiter), writeDelim_eq, read_written, main (the whole of Spec.C11.holds: written text, token-wise canonical read-back, blank padding irrelevant, no carry-over) under the per-token law TokLaw (proved for integers, literals, dates, missing values) on the sub-domain 'no character of the delimiter in a token'; the rest of the property's domain (no rendering contains the delimiter as a substring) and float tokens are evaluated per case on model and implementation.",
+        "Theorems Props.C11.split_join (split after join is the identity on delimiter-free tokens, any multi-character delimiter), writeDelim_eq, read_written, main (the whole of Spec.C11.holds: written text, token-wise canonical read-back, blank padding irrelevant, no carry-over) under the per-token law TokLaw (proved for integers, literals, dates, floats and missing values: Props.C11.tokLaw_of_domain) on the sub-domain 'no character of the delimiter in a token'; Props.C11.main_dom is that statement from the decidable domain Spec.C11.inDomain. The rest of the property's domain (delimiters holding a blank, renderings that share a character with the delimiter without containing it as a substring) is evaluated per case on model and implementation.",
         "Trusted: Lean kernel; model lean/Cfi/Line.lean; for multi-character delimiters the domain guard is stronger than the property's wording (no character of the delimiter in a rendering).",
         "6/C11",
     ),
